@@ -47,6 +47,13 @@ def gen_case(rng, idx):
         c["rank_in"] = rng.range(1, 3)
     else:
         c["rank_in"] = rank
+    if lay == "ksk":
+        # the two secrets may live in rings of smaller degree (independently): n, n/2, n/4, ..., 1
+        degs = [n >> j for j in range(0, n.bit_length())]
+        c["nin"] = rng.choice([n, n] + degs)
+        c["nout"] = rng.choice([n, n] + degs)
+        if c["dist"].startswith("th:"):
+            c["dist"] = f"th:{min(int(c['dist'][3:]), c['nin'], c['nout'])}"
     if lay == "atk":
         c["p"] = rng.choice([-1, 1, 3, 5, -3, 7, -5])
     if lay == "tsk" and rng.chance(1, 2):
@@ -78,7 +85,7 @@ def gen_case(rng, idx):
 def harness_line(i, c):
     keys = ["be", "n", "b", "k", "kxe", "rank", "rank_in", "dnum", "dsize", "dist", "sxs", "sxa", "sxe"]
     s = f"{i} {c['layout']} " + " ".join(f"{k}={c[k]}" for k in keys)
-    for k in ("p", "pt", "ptv"):
+    for k in ("p", "pt", "ptv", "nin", "nout"):
         if k in c:
             s += f" {k}={c[k]}"
     return s
@@ -98,7 +105,7 @@ def model_line(i, c, a):
     if c["layout"] == "tsk":
         return (f"{i} enc cmp_tsk {head} dnum={c['dnum']} dsize={c['dsize']} sk={a['sk']} top={a['top']} "
                 f"seeds={a['seeds']} child={a['child']} es={err_polys(a['e'], limb)}")
-    op = "cmp_ggsw" if c["layout"] == "ggsw" else "cmp_gglwe"
+    op = "cmp_ggsw" if c["layout"] == "ggsw" else ("cmp_ksk" if c["layout"] == "ksk" else "cmp_gglwe")
     return (f"{i} enc {op} {head} rank_in={c['rank_in']} dnum={c['dnum']} dsize={c['dsize']} sk={a['sk']} pt={a['pt']} top={a['top']} "
             f"seeds={a['seeds']} child={a['child']} es={err_polys(a['e'], limb)}")
 
@@ -135,7 +142,8 @@ def run(ctx):
                 _, st, a = parse_answer(line)
                 lay = c["layout"]
                 per_layout[lay] = per_layout.get(lay, 0) + 1
-                ctx.count_case((lay, c["be"], c["n"], c["rank"], c["rank_in"], c["dnum"], c["dsize"], c["size"], min(c["b"], 18) // 4, c["dist"][:2], c.get("ptmode", -1)))
+                ctx.count_case((lay, c["be"], c["n"], c["rank"], c["rank_in"], c["dnum"], c["dsize"], c["size"], min(c["b"], 18) // 4, c["dist"][:2], c.get("ptmode", -1),
+                                c.get("nin", 0), c.get("nout", 0)))
                 if st != "ok":
                     ctx.disagreements += 1
                     if len(broken) < 20:
@@ -144,11 +152,12 @@ def run(ctx):
                 cells = int(a["cells"])
                 cells_total += cells
                 good = (int(a["masks"]) == cells and int(a["dec"]) == cells and int(a["ser"]) == 1 and int(a["seedwords"]) == 1
-                        and int(a["cellenc"]) in (-1, cells))
+                        and int(a["cellenc"]) in (-1, cells) and a.get("degrees", "1") == "1")
                 if not good:
                     ctx.oracle_failures += 1
                     w = {"case": hl[i], "implementation": line[:300],
-                         "oracle": f"cells={cells} masks={a['masks']} phases-equal={a['dec']} cellenc={a['cellenc']} ser={a['ser']} seeds-in-loop-order={a['seedwords']}",
+                         "oracle": f"cells={cells} masks={a['masks']} phases-equal={a['dec']} cellenc={a['cellenc']} ser={a['ser']} seeds-in-loop-order={a['seedwords']} "
+                                   f"degree-fields-ok={a.get('degrees', '-')}",
                          "rerun": f"printf '%s\\n' '{hl[i]}' | harness/target/release/pvh cmp"}
                     witness = witness or w
                 wrappers_total += int(a.get("wrappers", 0))
